@@ -60,6 +60,9 @@ structure Edge where
   key : Wire
   /-- `control_target` attribute: `some 'c'`, `some 't'` or `none` (also `none` before `add_control_target_to_dag`) -/
   ct : Option Char := none
+  /-- `control_target` attribute of the *repaired* `add_control_target_to_dag` (handoff/repairs/d22): the pair
+      (role of the register at the operation the edge leaves, role at the operation it enters) -/
+  ct2 : Option Char × Option Char := (none, none)
   deriving DecidableEq, Repr, Inhabited
 
 structure MG where
@@ -464,5 +467,112 @@ def renEq (c1 c2 : Circuit) : Bool :=
 def wiresEq (c1 c2 : Circuit) : Bool :=
   c1.ne == c2.ne && c1.np == c2.np && c1.nc == c2.nc &&
   (qregsOf c1).all fun q => (wireOf q c1.ops).map dropC == (wireOf q c2.ops).map dropC
+
+/-! ## the repaired `circuit_is_isomorphic` (handoff/repairs/d22/patch.diff)
+
+  The repair changes `_create_edge_control_target_attr` (roles also at `ClassicalControlledPairOperationBase`, role `'m'`
+  for the classical register an operation writes) and `add_control_target_to_dag` (every edge gets the pair
+  (role at its tail, role at its head)); `node_match`, `edge_match` (sorted `str()` of the attributes of the parallel
+  edges = their multiset) and everything downstream are untouched.  The functions above model the code as it stands in
+  /repo; the functions below model the code after the patch.  The harness probes which of the two the implementation
+  under test is and compares with that one. -/
+
+/-- repaired `_create_edge_control_target_attr(operation, reg_type, reg)` -/
+def role (o : Option NOp) (w : Wire) : Option Char :=
+  match o with
+  | some (.gate (.ctrl _ c t)) =>
+    if Wire.ofQ c == w then some 'c' else if Wire.ofQ t == w then some 't' else none
+  | some (.gate (.cctrl _ c t m)) =>
+    if Wire.ofQ c == w then some 'c' else if Wire.ofQ t == w then some 't' else if w == ⟨.c, m⟩ then some 'm' else none
+  | some (.gate (.meas _ m)) => if w == ⟨.c, m⟩ then some 'm' else none
+  | _ => none
+
+def MG.setCt2 (g : MG) (src dst : Nd) (k : Wire) (v : Option Char × Option Char) : MG :=
+  { g with edges := g.edges.map fun e => if e.src == src && e.dst == dst && e.key == k then { e with ct2 := v } else e }
+
+def Nd.isOut : Nd → Bool
+  | .out _ => true
+  | _ => false
+
+/-- the `while node not in circuit.node_dict["Output"]` loop of the repaired `add_control_target_to_dag` on one register:
+    `tail` is the role the register had at the operation just left (`None` at the input node) -/
+def ctWalk2 (g : MG) (w : Wire) : Nat → Nd → Option Char → MG
+  | 0, _, _ => g
+  | fuel + 1, node, tail =>
+    if node.isOut then g else
+    match g.outEdge node w with
+    | none => g
+    | some e =>
+      let head := role (g.opOf e.dst) w
+      ctWalk2 (g.setCt2 node e.dst w (tail, head)) w fuel e.dst head
+
+/-- repaired `add_control_target_to_dag(circuit)` -/
+def MG.addControlTarget2 (g : MG) : MG :=
+  g.inputs.foldl (fun g w => ctWalk2 g w (g.nodes.length + 1) (.inp w) none) g
+
+/-- `edge_match(e1, e2)` on the repaired attributes: the (unchanged) code compares the sorted `str()` of the attributes of
+    the parallel edges, i.e. their multisets (`str` is injective on pairs of roles) -/
+def edgeMatch2 (es1 es2 : List Edge) : Bool :=
+  let l1 := es1.map (·.ct2)
+  let l2 := es2.map (·.ct2)
+  (l1 ++ l2).all fun v => l1.count v == l2.count v
+
+/-- `isoCheck` with the repaired edge attributes -/
+def isoCheck2 (g1 g2 : MG) (f : List (Nd × Nd)) : Bool :=
+  let ns1 := g1.nodes.map (·.1)
+  let ns2 := g2.nodes.map (·.1)
+  let img := ns1.map (applyMap f)
+  ns1.length == ns2.length &&
+  img.all Option.isSome &&
+  nodupNd (img.filterMap id) &&
+  (img.filterMap id).all (fun m => ns2.contains m) &&
+  ns1.all (fun n => match applyMap f n with
+    | some m => (match g1.opOf n, g2.opOf m with
+      | some a, some b => nodeMatch a b
+      | _, _ => false)
+    | none => false) &&
+  ns1.all (fun u => ns1.all fun v =>
+    match applyMap f u, applyMap f v with
+    | some u', some v' =>
+      let es1 := g1.edgesBetween u v
+      let es2 := g2.edgesBetween u' v'
+      es1.length == es2.length && edgeMatch2 es1 es2
+    | _, _ => false)
+
+def consistent2 (g1 g2 : MG) (f : List (Nd × Nd)) (n m : Nd) : Bool :=
+  ((n, m) :: f).all fun q =>
+    let a := g1.edgesBetween n q.1
+    let b := g2.edgesBetween m q.2
+    let a' := g1.edgesBetween q.1 n
+    let b' := g2.edgesBetween q.2 m
+    a.length == b.length && edgeMatch2 a b && a'.length == b'.length && edgeMatch2 a' b'
+
+def isoSearch2 (g1 g2 : MG) : List Nd → List (Nd × Nd) → List (List (Nd × Nd))
+  | [], f => [f.reverse]
+  | n :: rest, f =>
+    match g1.opOf n with
+    | none => []
+    | some a =>
+      (g2.nodes.filter (fun p => nodeMatch a p.2 && !(f.any fun q => q.2 == p.1) && consistent2 g1 g2 f n p.1)).flatMap
+        fun p => isoSearch2 g1 g2 rest ((n, p.1) :: f)
+
+/-- `is_isomorphic(circuit1.dag, circuit2.dag, node_match, edge_match)` after the repaired `add_control_target_to_dag` -/
+def isoGraphs2 (g1 g2 : MG) : Bool :=
+  let g1 := g1.addControlTarget2
+  let g2 := g2.addControlTarget2
+  g1.nodes.length == g2.nodes.length && g1.edges.length == g2.edges.length &&
+  ((isoSearch2 g1 g2 g1.topo []).any (isoCheck2 g1 g2))
+
+/-- repaired `circuit_is_isomorphic(circuit1, circuit2)` -/
+def circuitIsIsomorphic2 (c1 c2 : Circuit) : Except Err Bool := do
+  return isoGraphs2 (← MG.build c1) (← MG.build c2)
+
+/-- the comparison `remove_redundant_circuits` makes, with the repaired matcher -/
+def isoNormalised2 (c1 c2 : Circuit) : Except Err Bool := do
+  return isoGraphs2 (← MG.build c1).normalise (← MG.build c2).normalise
+
+/-- `remove_redundant_circuits` with the repaired matcher -/
+def removeRedundant2 (l : List Circuit) : List Circuit :=
+  removeRedundantWith (fun a b => match isoNormalised2 a b with | .ok r => r | .error _ => false) l
 
 end Graphiq.Compare
